@@ -63,6 +63,14 @@ peg::parser! {
 
                 let mut members = first.into_iter().chain(rest).flatten().collect::<Vec<_>>();
 
+                // A lone `-` member right after another `-` would form the regex crate's
+                // `--` set-difference operator; escape it.
+                for i in 1..members.len() {
+                    if members[i] == "-" && members[i - 1].ends_with('-') {
+                        members[i] = String::from(r"\-");
+                    }
+                }
+
                 // If we completed the parse but ended up with no valid members
                 // of the bracket expression, then return a regex that matches nothing.
                 // (Or in the inverted case, matches everything.)
@@ -116,6 +124,11 @@ peg::parser! {
                 let (from_str, from_c) = from;
                 let (to_str, to_c) = to;
 
+                // Escape a `-` endpoint: next to the range's own `-` the regex crate
+                // would read `--` as its set-difference operator.
+                let from_str = if from_c == '-' { String::from(r"\-") } else { from_str };
+                let to_str = if to_c == '-' { String::from(r"\-") } else { to_str };
+
                 // Evaluate if the range is valid.
                 if from_c <= to_c {
                     Some(std::format!("{from_str}-{to_str}"))
@@ -138,6 +151,9 @@ peg::parser! {
             } /
             // Escape opening bracket.
             ['['] { (String::from(r"\["), '[') } /
+            // `&` and `~` are escaped: doubled (`&&`, `~~`) they are set operators
+            // of the regex crate.
+            [c if matches!(c, '&' | '~')] { (std::format!("\\{c}"), c) } /
             // Any other character except closing bracket gets added as-is.
             [c if c != ']'] { (c.to_string(), c) }
 
